@@ -31,6 +31,12 @@ class _CommonVisitors(visitor.NodeVisitor):
     Contains the visitor methods that are equal between SQLAlchemy Core and ORM.
     """
 
+    def generic_visit(self, node: ast._Node):
+        ":meta private:"
+        # Every node that can be expressed has its own visitor method. Anything
+        # else must be refused instead of silently becoming ``None``:
+        raise ex.TypeException("SQLAlchemy", type(node).__name__)
+
     def visit_Null(self, node: ast.Null) -> Null:
         ":meta private:"
         return null()
